@@ -270,7 +270,7 @@ def strategies(excl):
 def plan(tier, seed, excl):
     q = tier == 'quick'
     t = [('small-scope', {'shard': i, 'of': 16, 'full': not q}) for i in range(16)]
-    t += [('random', {'shard': i, 'n': 1500 if q else 20000}) for i in range(8)]
+    t += [('random', {'shard': i, 'n': 2500 if q else 20000}) for i in range(16)]
     return t
 
 
